@@ -1,6 +1,8 @@
 import SR.Proofs.Checker.Control
 import SR.Proofs.Checker.Once
 import SR.Proofs.Checker.BfsDepth
+import SR.Proofs.Checker.DiscNames
+import SR.Props.C12
 /-!
 # C12 (checker-machine part) — run controls are honoured
 
@@ -89,5 +91,61 @@ theorem C12_bfs_depth_complete (hinj : ∀ a b, P.M.Reach a → P.M.Reach b → 
   intro q t hq' hl hlt
   have := bfs_depth_complete (P := P) hinj cs hf hq ⟨hstop, hall⟩ d hd q t hq' hl hlt
   exact (ninv_run (P := P) cs).actVis _ (List.mem_append_right _ this)
+
+/-! ### the finish condition, composed with the variant semantics of `Props/C12.lean`
+
+`hdProps`: what `HasDiscoveries::matches` reads of the property list when names are indices.  `finishOf c` is the
+machine's `finishMatches` parameter for `finish_when(c)`. -/
+
+def hdProps (props : List (Prop' σ)) : List HasDisc.P :=
+  (List.range props.length).map fun i => { name := i, exp := (props[i]?.map (·.exp)).getD .always }
+
+def finishOf (c : HasDisc.Cond) (props : List (Prop' σ)) : List Nat → Bool :=
+  fun d => HasDisc.matches c d (hdProps props)
+
+/-- **a worker that stops for `finish_when(c)` does so at a moment when `c` matches the discoveries made so far** —
+    and the discovered names form a set of property names, so the `C12_matches_*` theorems give `c` its declared
+    meaning there (e.g. `AnyFailures`: some always/eventually property has a counterexample at that moment). -/
+theorem C12_finish_stop_matches (c : HasDisc.Cond) (hfm : P.finishMatches = finishOf c P.props)
+    (pre : List Choice) (hstop : (run P pre).stopped = false)
+    (hs : (run P (pre ++ [Choice.stop .finish])).stopped = true) :
+    HasDisc.matches c (discNames (run P pre).disc) (hdProps P.props) = true ∧
+    (discNames (run P pre).disc).Nodup ∧
+    (∀ n ∈ discNames (run P pre).disc, n < P.props.length ∧ hasDisc (run P pre).disc n = true) := by
+  refine ⟨?_, discNodup_run (P := P) pre, ?_⟩
+  · have hrun : run P (pre ++ [Choice.stop .finish]) = stepStop P .finish (run P pre) := by
+      unfold run; rw [runFrom_append]; simp [runFrom, step]
+    rw [hrun] at hs
+    unfold stepStop at hs
+    by_cases hen : stopEnabled P .finish (run P pre) = true
+    · have : P.finishMatches (discNames (run P pre).disc) = true := hen
+      rw [hfm] at this; exact this
+    · rw [if_neg hen, hstop] at hs; cases hs
+  · intro n hn
+    have hd := (mem_discNames_iff _ n).1 hn
+    refine ⟨?_, hd⟩
+    unfold hasDisc at hd
+    obtain ⟨e, he, hei⟩ := List.any_eq_true.1 hd
+    have : e.1 = n := by simpa using hei
+    rw [← this]
+    exact ((sinv_run (P := P) pre).disc e he).2.1
+
+/-- example of the composed meaning, for `AnyFailures`: at the moment of the stop some always- or
+    eventually-property has a discovery -/
+theorem C12_finish_anyFailures (hfm : P.finishMatches = finishOf .anyFailures P.props)
+    (pre : List Choice) (hstop : (run P pre).stopped = false)
+    (hs : (run P (pre ++ [Choice.stop .finish])).stopped = true) :
+    ∃ i pr, P.props[i]? = some pr ∧ pr.exp ≠ .sometimes ∧ hasDisc (run P pre).disc i = true := by
+  obtain ⟨hm, _, _⟩ := C12_finish_stop_matches P .anyFailures hfm pre hstop hs
+  simp only [HasDisc.matches, List.any_eq_true, List.mem_filter] at hm
+  obtain ⟨p, ⟨hp, hfail⟩, hc⟩ := hm
+  simp only [hdProps, List.mem_map, List.mem_range] at hp
+  obtain ⟨i, hi, rfl⟩ := hp
+  have hpr : P.props[i]? = some P.props[i] := List.getElem?_eq_getElem hi
+  refine ⟨i, P.props[i], hpr, ?_, ?_⟩
+  · simp only [hpr, Option.map_some, Option.getD_some] at hfail
+    intro he; rw [he] at hfail; simp [HasDisc.isFailure] at hfail
+  · simp only [List.contains_eq_mem, decide_eq_true_eq] at hc
+    exact (mem_discNames_iff _ i).1 hc
 
 end SR.C12M
